@@ -248,6 +248,7 @@ type c05env struct {
 	// unitStart[i]: first phase of the sub-operation (one context / timer) phase i belongs to
 	// (nil: the whole operation runs under one context)
 	unitStart []int
+	qDepth    func() int // depth of the channel's read queue (held-worker probe)
 }
 
 func hx(s string) string { return vlib.Hex([]byte(s)) }
@@ -354,6 +355,7 @@ func c05build(cs c05case) (*c05env, error) {
 			return err
 		}
 		e.closeFn = func() { _ = d.Close() }
+		e.qDepth = func() int { return d.Channel.Q.GetDepth() }
 		e.next = func() (string, error) {
 			r, err := d.SendCommand(c05nextCmd, opoptions.WithTimeoutOps(c05Long))
 			if err != nil {
@@ -1329,6 +1331,13 @@ func runC05(c *ctx) {
 				c05f12(c, 3000)
 				return
 			}
+			if strings.HasPrefix(cs.kind, "held-") {
+				if sig, detail := c05heldOne(cs.kind[5:]); sig != "" && sig != "skip" {
+					res.Fail("oracle", cs.line(), detail, sig)
+				}
+				res.Case("held/"+cs.kind, true)
+				return
+			}
 			if cs.kind == "f12child" {
 				c05f12run(c, cs.k)
 				return
@@ -1476,6 +1485,227 @@ func runC05(c *ctx) {
 		}
 	}
 	c05f12(c, c.n(3000, 15000))
+	c05held(c)
+}
+
+// c05held: "a timed-out operation consumes no further device output once it has returned", made
+// deterministic with the library's verif yield hooks for every operation that runs its reads in a
+// worker goroutine (GetPrompt, SendInput, SendInteractive, SendWithCallbacks). The device withholds
+// the last byte of the exchange; the worker is held at the yield point chan.Read.deq (after its
+// deadline test, before it takes bytes off the queue) across the deadline. If the operation
+// returns while its worker is still there, the next exchange is started, its first output is let
+// into the queue, and only then is the held worker released: a worker that outlived its operation
+// takes that output away and the next exchange fails. If the operation (rightly) waits for its
+// worker, the device catches up, the worker is released, the operation returns, and the next
+// exchange must return its own complete output.
+func c05held(c *ctx) {
+	res := c.res
+	for _, kind := range []string{"gp", "si", "ia", "cb"} {
+		caseLine := fmt.Sprintf("c05case held-%s 0 0 conn 0 0", kind)
+		sig, detail := c05heldOne(kind)
+		res.Case("held/"+kind, true)
+		res.InDomain++
+		res.Count("kind:held-worker")
+		switch {
+		case sig == "skip":
+			res.Note("held-worker probe %s: %s", kind, detail)
+		case sig != "":
+			res.Fail("oracle", caseLine, detail, sig)
+		}
+	}
+}
+
+func c05heldOne(kind string) (sig, detail string) {
+	ref := c05reference(kind, 0)
+	if ref.err != "" {
+		return "reference-run-failed:" + kind, ref.err
+	}
+	cs := c05case{kind: kind, seg: 0, setting: "conn", k: ref.total - 1, seed: 7}
+	e, err := c05build(cs)
+	if err != nil {
+		return "setup-failed:" + kind, err.Error()
+	}
+	T := e.wantT(len(ref.starts) - 1)
+	var armed atomic.Bool
+	parked, release := make(chan struct{}), make(chan struct{})
+	var relOnce sync.Once
+	rel := func() { relOnce.Do(func() { close(release) }) }
+	// second slot: the worker of the NEXT exchange is held in front of the queue as well, until the
+	// left-over worker of the first operation has made its read (otherwise the two race for the chunk)
+	var armed2 atomic.Bool
+	parked2, release2 := make(chan struct{}), make(chan struct{})
+	var rel2Once sync.Once
+	rel2 := func() { rel2Once.Do(func() { close(release2) }) }
+	defer rel2()
+	if !c07InstallHook(func(pt string) {
+		if pt != "chan.Read.deq" {
+			return
+		}
+		if armed.CompareAndSwap(true, false) {
+			close(parked)
+			<-release
+			return
+		}
+		if armed2.CompareAndSwap(true, false) {
+			close(parked2)
+			<-release2
+		}
+	}) {
+		return "skip", "the scrapligo tree has no verif yield hooks"
+	}
+	defer c07InstallHook(nil)
+	defer rel()
+	e.start()
+	if e.prelude != nil {
+		if _, perr, _, ph, pp := c05guard(func() (string, error) { return "", e.prelude() }); perr != nil || ph || pp != "" {
+			return "setup-failed:" + kind, fmt.Sprintf("prelude: %v %v %s", perr, ph, pp)
+		}
+	}
+	settled := func() {
+		for i := 0; i < 4000; i++ {
+			ok := false
+			e.pipe.Snapshot(func() {
+				ok = e.pipe.Delivered == e.pipe.Emitted || (e.pipe.StallAt >= 0 && e.pipe.Delivered >= e.pipe.StallAt)
+			})
+			if ok {
+				break
+			}
+			time.Sleep(50 * time.Microsecond)
+		}
+		time.Sleep(3 * time.Millisecond) // the read loop enqueues right after the transport read
+	}
+	settled()
+	e0 := 0
+	e.pipe.SetFaults(func(p *sim.Pipe) {
+		e0 = p.Delivered
+		p.StallAt = e0 + cs.k
+	})
+	defer func() {
+		e.pipe.SetFaults(func(p *sim.Pipe) { p.StallAt = -1 })
+		rel()
+		done := make(chan struct{})
+		go func() { defer func() { _ = recover(); close(done) }(); e.closeFn() }()
+		select {
+		case <-done:
+		case <-time.After(2 * time.Second):
+		}
+	}()
+	type out struct {
+		r   string
+		err error
+		p   string
+	}
+	run := func(f func() (string, error)) chan out {
+		ch := make(chan out, 1)
+		go func() {
+			var o out
+			defer func() {
+				if p := recover(); p != nil {
+					o.p = fmt.Sprint(p)
+				}
+				ch <- o
+			}()
+			o.r, o.err = f()
+		}()
+		return ch
+	}
+	res1 := run(e.op)
+	// arm once the device has delivered everything up to the withheld byte: the worker is then in
+	// its last read loop
+	go func() {
+		for i := 0; i < 40000; i++ {
+			ok := false
+			e.pipe.Snapshot(func() { ok = e.pipe.Delivered >= e0+cs.k })
+			// ... and the worker has taken all of it off the queue: what it is held in front of is an empty queue
+			if ok && (e.qDepth == nil || e.qDepth() == 0) {
+				time.Sleep(2 * time.Millisecond)
+				if e.qDepth == nil || e.qDepth() == 0 {
+					break
+				}
+			}
+			time.Sleep(50 * time.Microsecond)
+		}
+		armed.Store(true)
+	}()
+	select {
+	case <-parked:
+	case <-time.After(3 * time.Second):
+		return "skip", "the worker never reached Channel.Read after the stall"
+	}
+	var o1 out
+	returned := false
+	select {
+	case o1 = <-res1:
+		returned = true
+	case <-time.After(3*T + c05Slack):
+	}
+	if o1.p != "" {
+		return "panic:" + kind, c05kindName[kind] + " panicked: " + o1.p
+	}
+	nextRun := func() chan out {
+		if e.beforeNext != nil {
+			e.beforeNext()
+		}
+		return run(e.next)
+	}
+	var nres chan out
+	if returned {
+		// the operation is over, its worker is not: let the next exchange's first output reach the queue, then
+		// let the left-over worker run
+		// (the device catches up only after it has received the next command, so that what it held back and
+		// the echo of the next command arrive together: the one read the left-over worker still makes takes both)
+		armed2.Store(true)
+		nres = nextRun()
+		select {
+		case <-parked2: // it has written its command and is about to look at the queue
+		case <-time.After(3 * time.Second):
+		}
+		e.pipe.SetFaults(func(p *sim.Pipe) { p.StallAt = -1 })
+		settled()
+		rel()
+		time.Sleep(10 * time.Millisecond)
+		rel2()
+	} else {
+		// the operation waits for its worker: the device catches up, the worker goes on
+		e.pipe.SetFaults(func(p *sim.Pipe) { p.StallAt = -1 })
+		settled()
+		rel()
+		select {
+		case o1 = <-res1:
+		case <-time.After(c05Watchdog):
+			return "hang:" + kind, c05kindName[kind] + " did not return after its held worker was released"
+		}
+		if o1.p != "" {
+			return "panic:" + kind, c05kindName[kind] + " panicked: " + o1.p
+		}
+		nres = nextRun()
+	}
+	var n out
+	select {
+	case n = <-nres:
+	case <-time.After(c05Watchdog):
+		return "no-recovery:hang:" + kind, "the exchange after the timed-out " + c05kindName[kind] + " did not return"
+	}
+	if os.Getenv("C05_HELD_DEBUG") != "" {
+		fmt.Fprintf(os.Stderr, "held %s: returned-while-parked=%v op1=(%q,%v) next=(%q,%v) T=%v\n", kind, returned, o1.r, o1.err, n.r, n.err, T)
+	}
+	if n.p != "" || n.err != nil || n.r != e.nextWant {
+		how := "waited for its worker"
+		if returned {
+			how = fmt.Sprintf("returned (class %s) at its deadline while its worker goroutine was still inside Channel.Read", errClass(o1.err))
+		}
+		return "no-recovery:consumed-after-return:" + kind, fmt.Sprintf("%s with the device silent before the last byte %s; the next exchange %q, answered completely by the device, returned class %s result %q panic %q (expected %q): its output was taken off the queue by the worker of the operation that had already returned",
+			c05kindName[kind], how, c05nextCmd, errClass(n.err), n.r, n.p, e.nextWant)
+	}
+	return "", ""
+}
+
+func sum(xs []int) int {
+	n := 0
+	for _, x := range xs {
+		n += x
+	}
+	return n
 }
 
 type c05ans struct {
